@@ -700,6 +700,21 @@ func ruleDrainState(r *Run, rule string, fn *Func, owner string) {
 				if e.Taken && strings.Contains(ExprStr(e.Cond), "BypassChecks.State.Status == workflow.Completed") {
 					excused = true
 				}
+				// a conjunction of the two spawn guards that is false: with the cancel function known
+				// non-nil the group is absent; with it nil nothing was spawned — excused either way
+				if cjs := conjuncts(e.Cond); len(cjs) > 1 && !e.Taken {
+					onlyGuards := true
+					for _, cj := range cjs {
+						x, op, ok := IsNilCompare(info, cj)
+						sel, isSel := x.(*ast.SelectorExpr)
+						if !ok || op != token.NEQ || !isSel || (sel.Sel.Name != "ContChecks" && sel.Sel.Name != "contCancel" && sel.Sel.Name != "contCheckResult") {
+							onlyGuards = false
+						}
+					}
+					if onlyGuards {
+						excused = true
+					}
+				}
 			}
 		}
 		if !drained && !excused && bad == "" {
